@@ -1405,6 +1405,7 @@ func (p *Printer) command(cmd Command, redirs []*Redirect) (startRedirs int) {
 		}
 		if cmd.Stmt != nil {
 			p.stmt(cmd.Stmt)
+			p.comments(cmd.Stmt.Comments...)
 		}
 	case *CoprocClause:
 		p.spacedString("coproc", cmd.Pos())
@@ -1414,6 +1415,7 @@ func (p *Printer) command(cmd Command, redirs []*Redirect) (startRedirs int) {
 		}
 		p.space()
 		p.stmt(cmd.Stmt)
+		p.comments(cmd.Stmt.Comments...)
 	case *LetClause:
 		p.spacedString("let", cmd.Pos())
 		for _, n := range cmd.Exprs {
@@ -1426,6 +1428,7 @@ func (p *Printer) command(cmd Command, redirs []*Redirect) (startRedirs int) {
 		p.word(cmd.Description)
 		p.space()
 		p.stmt(cmd.Body)
+		p.comments(cmd.Body.Comments...)
 	default:
 		panic(fmt.Sprintf("syntax.Printer: unexpected node type %T", cmd))
 	}
